@@ -3,6 +3,7 @@
   for EVERY byte list and chunk size, and for any sequence of printed instructions the bytes come back in order.
 -/
 import AL.Impl.Debug
+import AL.Lemmas.Run
 namespace AL.Lemmas.DebugText
 open AL AL.Impl
 
@@ -87,6 +88,25 @@ theorem parse_listing (codes : List Bytes) (rest : Str) :
     simp only [List.map_cons, List.flatten_cons, List.append_assoc]
     rw [parse_printInstr c, ih]
     simp
+
+/-- the listing shows exactly the codes the layout theorems of C06 / C13 speak about (`Lemmas.items`), in the same order -/
+theorem listingGo_codes (lf : Str → R LineOut × Nat) (fuel : Nat) (text : Str) :
+    (listingGo lf fuel text).1 = (AL.Lemmas.items lf fuel text).codes := by
+  induction fuel generalizing text with
+  | zero => rfl
+  | succ n ih =>
+    unfold listingGo AL.Lemmas.items
+    cases text with
+    | nil => rfl
+    | cons c cs =>
+      dsimp only
+      rcases hlf : lf (c :: cs) with ⟨res, k⟩
+      cases res with
+      | error e => rfl
+      | ok lo =>
+        cases lo with
+        | skip => exact ih _
+        | code bs => simp only [ih]
 
 /-- non-vacuity: a ten-byte instruction is printed in two rows and read back -/
 example : parseHexOut (printInstr [0x48, 0xb8, 1, 2, 3, 4, 5, 6, 7, 8]) = [0x48, 0xb8, 1, 2, 3, 4, 5, 6, 7, 8] := by
